@@ -349,6 +349,10 @@ def build(U):
             lemma_sub_boundary(bytes_of(self.ctx()), self.off() as int, self.ctx().end as int, 0);
             assert forall|s: &str| decode_utf8(#[trigger] s.spec_bytes()) == s@ by { lemma_str_chars(s); }
         }''', fname='chars')
+    tr.body_start('''        proof {
+            lemma_str_valid(self.ctx().input);
+            lemma_boundary_ends(bytes_of(self.ctx()));
+        }''', fname='as_position')
     tr.attr('    #[verifier::loop_isolation(false)]', fname='skip')
     tr.body_start('''        proof {
             lemma_str_valid(self.ctx().input);
